@@ -935,7 +935,12 @@ class BlockInterp:
                     raise Unsupported(f"del {norm(t)}")
             return "next"
         if isinstance(st, ast.FunctionDef):
-            self.me.env[st.name] = self.make_closure(st)
+            clo = self.make_closure(st)
+            if st.decorator_list:
+                from .pkgenv import apply_decorators
+
+                clo = apply_decorators(st, clo, self.me.ev)
+            self.me.env[st.name] = clo
             return "next"
         if isinstance(st, ast.ClassDef):
             from .userclass import build_class
